@@ -29,8 +29,14 @@ func ZZ_C09_LockDiscipline() {
 	vx.Watch(self, "CHFContext")
 
 	ref, _ := zzCreate(p, "A", zzSupi)
-	ref2, _ := zzCreate(p, "B", zzSupi) // same subscriber, found in the pool
-	_ = ref2
+	// same subscriber, found in the pool; its notifyUri (optional) replaces the first one
+	reqB := zzCreateReq("B", zzSupi)
+	if vx.Choice("noNotifyUri", 2) == 1 {
+		reqB.NotifyUri = ""
+	}
+	cB := &gin.Context{}
+	p.HandleChargingdataInitial(cB, reqB)
+	vx.Assert("second create answered 201", vx.HTTPStatus(cB) == 201)
 	u, _ := zzUsageInd("u0", 1, 1, 2)
 	zzSmallUsage(&u)
 	req := models.ChfConvergedChargingChargingDataRequest{SubscriberIdentifier: zzSupi, MultipleUnitUsage: []models.ChfConvergedChargingMultipleUnitUsage{u}}
